@@ -615,6 +615,8 @@ def check(run, prog):
 
 
     rule_last_element(run, prog)
+    from .c02_condition_scan import rule_condition_scan
+    rule_condition_scan(run, prog)           # R-2.6
 
 
 def _ancestors(n):
